@@ -20,6 +20,16 @@ def run_case(case, rec, cid):
 
     def f():
         out = {}
+        vals = []
+
+        def note(x):
+            vals.append([proj_dur(x), hid(x)])
+            return x
+        note(a), note(b), note(c)          # operands are hashed BEFORE any arithmetic (dict keys, set members)
+        for x in (a + b, b + a, (a + b) + c, a + (b + c), a + Duration(), n * a, a * n, a - b, a + (-1 * b), a + (-1 * a),
+                  a.to_days(), b.to_days(), -1 * (-1 * a)):
+            note(x)
+        out["vals"] = vals
         out["ab"], out["ba"] = proj_dur(a + b), proj_dur(b + a)
         out["comm"] = bool(a + b == b + a)
         out["l"], out["r"] = proj_dur((a + b) + c), proj_dur(a + (b + c))
